@@ -124,6 +124,15 @@ CHECKS = {
         "The contexts are built from the checker's own result type (the property is about lowering vs. assigned type).",
    technique="TLA+ pipeline invariant + TLC trace validation over the exhaustive operator x type-class x context table",
    ref="§4 C02"),
+ "C09": dict(
+   text="AliasResolve.tla states the resolution rule: among the aliases whose pattern matches the call-site items and whose parameter types equal the argument types (Referenz only "
+        "for assignables, one binding per type parameter) the longest wins, then the non-generic one, then the one with more Referenz parameters; arguments bind by placeholder name; "
+        "a negated alias yields the negation; without a type-matching alias the call is diagnosed. Populations of 1-3 functions over 7 patterns x 8 parameter typings (declaration "
+        "order shuffled, every third with an imported function) and call sites for every pattern shape in 5 argument forms are parsed by the real frontend; callee, binding and "
+        "negation wrapper read from the AST are validated by TLC. Operator overloads (exact operand types, else built in) are checked on a fixed program.",
+   note="Bounded to the vocabulary {foo, bar, mit, nicht, <a>, <b>} and parameter types Zahl/Text/type parameter. Where the rule leaves a tie the specification accepts any tied alias.",
+   technique="TLA+ resolution rule + TLC trace validation of the real parser's AST over enumerated alias populations and call sites",
+   ref="§4 C09"),
 }
 PENDING = {}
 
